@@ -31,6 +31,7 @@ class Write:
     outer: list              # outer loop frames (phases)
     cond_frames: list        # 'if' frames between the loop and the write
     unrec: list
+    value_term: object = None
 
 
 @dataclass
@@ -151,7 +152,7 @@ def analyse_computer(prog: Program, key: str, ref: FuncRef, kv: dict, struct: St
         if inner_loops:
             unrec.append("write nested in an inner loop")
         writes.append(Write(BOUND_SETTERS[ev.name], ev, loop_frame[1], loops.get(loop_frame[1]), lcoll, c, val,
-                            _norm_value(normalise_num(val)), outer, conds, unrec))
+                            _norm_value(normalise_num(val)), outer, conds, unrec, value_t))
     comp = Computer(key, ref, kv, game, writes, others, it, ft)
     _COMP_CACHE[ck] = comp
     if len(_COMP_CACHE) > 500:
@@ -159,26 +160,34 @@ def analyse_computer(prog: Program, key: str, ref: FuncRef, kv: dict, struct: St
     return comp
 
 
-def _phase0_polarity(test: Term, outer: list) -> bool | None:
-    """True if ``test`` true means 'first repetition', False if it means 'later repetition', None if unknown."""
+def _phase_applicability(test: Term, taken: bool, outer: list) -> tuple[bool, bool] | None:
+    """(holds in the first repetition, holds in some later repetition) for the branch ``test == taken``.
+
+    The test must be a comparison of the repetition counter with an integer literal (or its truthiness);
+    it is decided by constant folding at i = 0 and at i = 1 .. k + 2.
+    """
     counters = [f[2] for f in outer if f[0] == "for" and is_call_to(f[3], "range")]
     neg = False
     t = test
     while t[0] == "un" and t[1] == "not":
         neg, t = not neg, t[2]
-    if t in counters:       # ``if i:`` -> later
-        return neg
-    if t[0] == "cmp" and t[2] in counters and t[3][0] == "const":
-        k, op = t[3][1], t[1]
-        res = None
-        if (op, k) in (("==", 0), ("<", 1), ("<=", 0)):
-            res = True
-        elif (op, k) in (("!=", 0), (">", 0), (">=", 1)):
-            res = False
-        if res is None:
-            return None
-        return res != neg
-    return None
+    import operator
+    ops = {"==": operator.eq, "!=": operator.ne, "<": operator.lt, "<=": operator.le, ">": operator.gt, ">=": operator.ge}
+    if t in counters:
+        fn = lambda i: bool(i)          # noqa: E731
+        k = 0
+    elif t[0] == "cmp" and t[1] in ops and t[2] in counters and t[3][0] == "const" and isinstance(t[3][1], int):
+        k = t[3][1]
+        fn = lambda i, op=ops[t[1]], k=k: op(i, k)     # noqa: E731
+    elif t[0] == "cmp" and t[1] in ops and t[3] in counters and t[2][0] == "const" and isinstance(t[2][1], int):
+        k = t[2][1]
+        fn = lambda i, op=ops[t[1]], k=k: op(k, i)     # noqa: E731
+    else:
+        return None
+    want = taken != neg
+    at0 = fn(0) == want
+    later = any(fn(i) == want for i in range(1, abs(k) + 3))
+    return at0, later
 
 
 def _range_starts_at_zero_and_covers(frame, param_name: str) -> tuple[bool, str]:
@@ -347,8 +356,19 @@ def _check_computer(ob: _Ob, comp: Computer, is_sam: bool) -> None:
         full = [w for w in ws if w.loop_coll.known is False and not w.loop_coll.restricted
                 and w.loop_coll.classes >= (ALL_CLASSES - {EMPTY}) and not w.cond_frames]
         where = ref.where(ws[0].ev.node) if ws else ref.where()
-        if ws and not full and all(w.cond_frames for w in ws):
-            ob.und("B2", {"C01", "C04", "C08"}, where, fn, f"{colname} writes are conditional inside the loop")
+        cond_ws = [w for w in ws if w.cond_frames and w.loop_coll.known is False and not w.loop_coll.restricted]
+        both = False
+        for w1 in cond_ws:
+            for w2 in cond_ws:
+                if w1.loop_uid == w2.loop_uid and len(w1.cond_frames) == len(w2.cond_frames) == 1 and \
+                        w1.cond_frames[0][1] == w2.cond_frames[0][1] and w1.cond_frames[0][2] != w2.cond_frames[0][2]:
+                    both = True
+        if ws and not full and cond_ws and both:
+            ob.und("B2", {"C01", "C04", "C08"}, where, fn, f"{colname} is written on both branches of a condition inside the loop (not in the recognised idiom family)")
+        elif ws and not full and cond_ws:
+            ob.check("B2", {"C01", "C04", "C08"}, False, ref.where(cond_ws[0].ev.node), fn,
+                     f"{colname}: the write is reached for every unknown coalition (it is conditional inside the loop body)", f"conditional-write:{colname}",
+                     "an unknown row that is not rewritten keeps a bound of an earlier knowledge state (stale after un-reveal)")
         else:
             ob.check("B2", {"C01", "C04", "C08"}, bool(full), where, fn,
                      f"{colname}: a loop over all unknown coalitions rewrites every unknown row"
@@ -408,26 +428,29 @@ def _check_computer(ob: _Ob, comp: Computer, is_sam: bool) -> None:
 
 
 def _alts(w: Write):
-    """Phi-free alternatives of the (raw) value with their phase polarity."""
+    """Phi-free alternatives of the (raw) value: (applies in first phase, applies in a later phase, undecided, value)."""
     out = []
+    has_reps = bool(w.outer)
     for conds, v in split_phi(w.value):
-        pol: bool | None = None     # True = first repetition only, False = later repetitions, None = all phases
+        at0, later = True, has_reps
         undecided = False
         for t, taken in conds:
-            p = _phase0_polarity(t, w.outer)
+            p = _phase_applicability(t, taken, w.outer)
             if p is None:
                 undecided = True
             else:
-                pol = (p == taken)
-        out.append((pol, undecided, normalise_num(v)))
+                at0, later = at0 and p[0], later and p[1]
+        if not at0 and not later and not undecided:
+            continue        # dead branch
+        out.append((at0, later, undecided, normalise_num(v)))
     return out
 
 
 def _check_lb(ob: _Ob, comp: Computer, w: Write, is_sam: bool) -> None:
     ref, fn = comp.ref, comp.ref.short
     where = ref.where(w.ev.node)
-    for pol, undec, v in _alts(w):
-        tag = {True: "phase0", False: "later", None: "all"}[pol]
+    for at0, later, undec, v in _alts(w):
+        tag = "all" if (at0 and later) or (at0 and not w.outer) else ("phase0" if at0 else "later")
         if undec:
             ob.und("B4", {"C01", "C04", "C08"}, where, fn, "branch condition on something other than the repetition counter")
             continue
@@ -473,6 +496,10 @@ def _check_lb(ob: _Ob, comp: Computer, w: Write, is_sam: bool) -> None:
         same = CP.base == P
         ob.check("B6s", {"C01", "C04"}, same, where, fn, f"the complement is taken of the same split set [{tag}]",
                  f"lb-complement-same:{tag}", "P and c\\P' with P' != P are not a partition of c")
+        seq = comp.interp.same_sequence(w.value_term, w.c)
+        if seq is not None:
+            ob.check("B6s", {"C01", "C03", "C04"}, seq, where, fn, f"the complement list is the elementwise complement of the split list itself (same order) [{tag}]",
+                     f"lb-complement-pairing:{tag}", "parts are added elementwise: P[i] must be paired with c\\P[i], not with the complement of another part")
         okc, why = compl_valid(CP)
         ob.check("B6s", {"C01", "C04"}, okc, where, fn, f"c\\P is a set difference within c [{tag}] {why}", f"lb-complement-valid:{tag}",
                  "xor/difference with a non-subset is not the complementary part")
@@ -480,16 +507,16 @@ def _check_lb(ob: _Ob, comp: Computer, w: Write, is_sam: bool) -> None:
                  f"split set lies inside c [{tag}]: {P.show()}", f"lb-split-inside:{tag}",
                  "a part that is not a sub-coalition does not split c")
         # B4 fresh reads (first phase / SA)
-        if pol in (True, None):
+        if at0:
             ob.check("B4", {"C01", "C08", "C04"}, P.classes <= {PSUB} | ({EMPTY} if False else set()), where, fn,
                      f"first-phase split set excludes the row itself and the empty coalition: {P.show()}", "lb-stale-self",
                      "reading the own row (SELF, or EMPTY whose complement is SELF) imports the stale bound of an earlier compute: unsound after un-reveal")
-        if pol is False:
+        if later and is_sam:
             ob.check("B11a", {"C04"}, P.classes >= {PSUB, SELF}, where, fn,
                      f"later repetitions include the row itself in the split set: {P.show()}", "lb-later-self",
                      "without SELF a repetition can overwrite a bound raised by the monotone closure: more repetitions would loosen")
         # B6 tightness
-        if pol in (True, None):
+        if at0:
             ob.check("B6", {"C02"}, red == "MAX", where, fn, f"lower bound is the MAX over splits (found {red})", "lb-max",
                      "MIN over splits is sound but not the best partition: looser interval")
             ob.check("B6", {"C02"}, P.classes >= {PSUB} and P.known is None and not P.restricted, where, fn,
@@ -500,7 +527,7 @@ def _check_lb(ob: _Ob, comp: Computer, w: Write, is_sam: bool) -> None:
         ob.check("B13", {"C07"}, red == "MAX" and P.known is None, where, fn,
                  f"lower bound: MAX over a knowledge-independent split set [{tag}]", f"lb-polarity:{tag}",
                  "a knowledge filter inside the MAX makes the candidate set change non-monotonically with knowledge")
-        if is_sam and pol is True:
+        if is_sam and at0 and not later:
             ob.check("B11a", {"C04"}, red == "MAX" and P.classes == frozenset({PSUB}) and P.known is None and not P.restricted, where, fn,
                      "first repetition equals the plain superadditive lower recurrence (never looser than SA)", "sam-phase0-sa",
                      "a weaker first phase makes the approximation looser than the superadditive bounds")
@@ -509,10 +536,11 @@ def _check_lb(ob: _Ob, comp: Computer, w: Write, is_sam: bool) -> None:
 def _check_ub(ob: _Ob, comp: Computer, w: Write, is_sam: bool) -> None:
     ref, fn = comp.ref, comp.ref.short
     where = ref.where(w.ev.node)
-    for pol, undec, v in _alts(w):
-        if undec or pol is not None:
-            ob.und("B7s", {"C01", "C02", "C04", "C07"}, where, fn, "upper value depends on a branch")
-            continue
+    alts = _alts(w)
+    if len(alts) > 1 or any(a[2] for a in alts):
+        ob.und("B7s", {"C01", "C02", "C04", "C07"}, where, fn, "upper value depends on a branch")
+        return
+    for at0, later, undec, v in alts:
         parts = [v]
         if v[0] == "MIN2":
             parts = [v[1], v[2]]
@@ -552,6 +580,10 @@ def _check_ub(ob: _Ob, comp: Computer, w: Write, is_sam: bool) -> None:
                          "v(T) - LB(T'\\c) with T' != T is not a superadditivity inequality")
                 okc, why = compl_valid(subt[1])
                 ob.check("B7s", {"C01", "C04"}, okc, where, fn, f"T\\c is a set difference {why}", "ub-complement-valid", "")
+                seq = comp.interp.same_sequence(w.value_term, w.c)
+                if seq is not None:
+                    ob.check("B7s", {"C01", "C03", "C04"}, seq, where, fn, "the complement list is the elementwise remainder of the superset list itself (same order)",
+                             "ub-complement-pairing", "v(T[i]) must be paired with LB(T[i]\\c)")
                 ob.check("B7", {"C02"}, red == "MIN", where, fn, f"upper bound is the MIN over known supersets (found {red})", "ub-min",
                          "MAX over candidates is sound but looser")
                 ob.check("B7", {"C02"}, T.classes >= {PSUPER} and T.known is True and not T.restricted, where, fn,
